@@ -107,4 +107,107 @@ func runStress(f lib.Flags, res *lib.Result) {
 			mon.Violate("C12/pkg-router/concurrent/not-linearizable", "concurrent Adds under one name must each return the client they replaced (one chain) and report exactly those transitions", in, "a chain nil -> .. -> "+fmt.Sprint(last), fmt.Sprint(olds, links))
 		}
 	}
+	runStressLive(f, mon)
+}
+
+// runStressLive: free-running mixed Add / Remove / Get on one name with a fresh-client factory; every
+// client id is used once, so real-time order alone decides what a Get may return: not a client whose
+// Remove (or replacement by another Add) had already returned before the Get was invoked, and not a
+// client whose Add / factory call began only after the Get had returned (theorem C12_get_live_client).
+func runStressLive(f lib.Flags, mon *lib.Monitor) {
+	type op struct {
+		kind      string // add, remove, get
+		arg, res  int    // client ids; 0 = none
+		inv, resp int64
+	}
+	rounds := f.N(250, 5000)
+	for i := 0; i < rounds; i++ {
+		var clock, next atomic.Int64
+		var cmu sync.Mutex
+		created := map[int]int64{} // factory-made client -> time its factory call began
+		r := router.NewRouter(router.WithFactory(func(string) (any, error) {
+			t := clock.Add(1)
+			id := int(1000 + next.Add(1))
+			cmu.Lock()
+			created[id] = t
+			cmu.Unlock()
+			return id, nil
+		}))
+		const g, per = 6, 12
+		logs := make([][]op, g)
+		start := make(chan struct{})
+		var wg sync.WaitGroup
+		for k := 0; k < g; k++ {
+			wg.Add(1)
+			go func(k int) {
+				defer wg.Done()
+				<-start
+				for j := 0; j < per; j++ {
+					o := op{inv: clock.Add(1)}
+					switch k % 3 {
+					case 0:
+						o.kind, o.arg = "add", (k+1)*100+j
+						if old := r.Add("n", o.arg); old != nil {
+							o.res = old.(int)
+						}
+					case 1:
+						o.kind = "remove"
+						if old := r.Remove("n"); old != nil {
+							o.res = old.(int)
+						}
+					default:
+						o.kind = "get"
+						c, err := r.Get("n")
+						if err == nil && c != nil {
+							o.res = c.(int)
+						} else {
+							o.res = -1
+						}
+					}
+					o.resp = clock.Add(1)
+					logs[k] = append(logs[k], o)
+				}
+			}(k)
+		}
+		close(start)
+		wg.Wait()
+		mon.Eval(fmt.Sprint("live", i), true, nil)
+		in := map[string]any{"kind": "stress", "goroutines": g, "rounds": rounds}
+		addInv := map[int]int64{}  // client -> invocation of its Add
+		goneBy := map[int]int64{}  // client -> response time of the operation that took it out (Remove / replacing Add)
+		for _, l := range logs {
+			for _, o := range l {
+				if o.kind == "add" {
+					addInv[o.arg] = o.inv
+				}
+				if (o.kind == "add" || o.kind == "remove") && o.res > 0 {
+					if t, ok := goneBy[o.res]; ok {
+						mon.Violate("C12/pkg-router/concurrent/client-returned-twice", "a registered client is handed back (by Remove or a replacing Add) exactly once", in, "once", fmt.Sprint("client ", o.res, " at ", t, " and ", o.resp))
+					}
+					goneBy[o.res] = o.resp
+				}
+			}
+		}
+		for _, l := range logs {
+			for _, o := range l {
+				if o.kind != "get" {
+					continue
+				}
+				if o.res <= 0 {
+					mon.Violate("C12/router.Get/concurrent/notfound-with-factory", "with a factory that always supplies a client a Get cannot fail", in, "a client", "NotFound or nil")
+					continue
+				}
+				born, known := addInv[o.res]
+				if !known {
+					born, known = created[o.res]
+				}
+				if !known || born > o.resp {
+					mon.Violate("C12/router.Get/concurrent/client-from-the-future", "a Get returns a client that was registered (or created) between its invocation and its response", in, "Add/factory call begun before the Get returned", fmt.Sprint("client ", o.res, " born ", born, " get ", o.inv, "-", o.resp))
+				}
+				if t, ok := goneBy[o.res]; ok && t < o.inv {
+					mon.Violate("C12/router.Get/concurrent/stale-client", "a Get never returns a client that had been removed (or replaced) before the Get was invoked", in, "a client live during the Get", fmt.Sprint("client ", o.res, " was handed back at ", t, ", the Get ran ", o.inv, "-", o.resp))
+				}
+			}
+		}
+	}
 }
